@@ -226,7 +226,7 @@ void gen_history(Rng &r, const Profile &pf, Plan &plan) {
             frames.push_back(s2);
         }
         if (r.below(100) < pf.pct_caller_mutation) {
-            Step m; m.op = OP_FRAME_MUTATE; m.i = {slot, static_cast<int64_t>(r.below(7)), static_cast<int64_t>(r.next() >> 1)}; frames.push_back(m);
+            Step m; m.op = OP_FRAME_MUTATE; m.i = {slot, static_cast<int64_t>(r.below(10)), static_cast<int64_t>(r.next() >> 1)}; frames.push_back(m);
         }
         if (r.below(100) < pf.pct_cols / 4 + 1 && f > 0) {
             bool analog = r.chance(1, 2);
